@@ -194,14 +194,25 @@ type opCtx struct {
 }
 
 const abortedResult = "ABORTED"
+const overBudgetResult = "OVER-YIELD-BUDGET"
+
+// c11OpYieldBudget: see opYieldBudget in c10.go.
+const c11OpYieldBudget = 6_000_000
 
 // execOp runs one operation against schema and renders everything it returns.
 func execOp(c *opCtx, op *C11Op) (result string) {
 	verifsim.BeginOp(verifsim.OrderCfg{Seed: gen.Mix(gen.Mix(c.runSeed, uint64(c.task)+77), uint64(c.k)), Weights: c.weights})
 	defer verifsim.EndOp()
 	var b strings.Builder
+	verifsim.ArmOpBudget(c11OpYieldBudget)
 	defer func() {
 		r := recover()
+		over := verifsim.DisarmOpBudget()
+		if over {
+			verifsim.TakeAborted()
+			result = overBudgetResult
+			return
+		}
 		if verifsim.TakeAborted() {
 			// an injected abort fired somewhere in this operation; whether the
 			// panic arrived here or was swallowed on the way (fmt recovers panics
@@ -407,6 +418,7 @@ type runResult struct {
 	WriterSw   int            `json:"writer_switches"`
 	OpsDone    int            `json:"ops_done"`
 	OpsAborted int            `json:"ops_aborted"`
+	OpsOverBudget int         `json:"ops_over_yield_budget"`
 	OpsCmp     int            `json:"ops_compared"`
 	Snapshots  int            `json:"snapshots"`
 	SchedHash  uint64         `json:"sched_hash"`
@@ -669,7 +681,7 @@ func execRun(spec *C11Run, rl *raceLog) (res runResult) {
 			verifsim.TaskStart(int32(t))
 			for k := range spec.Tasks[t].Ops {
 				got[t][k] = execOp(&opCtx{schema, vars[t][k], spec.Seed, t, k, spec.Weights}, &spec.Tasks[t].Ops[k])
-				if got[t][k] == abortedResult {
+				if got[t][k] == abortedResult || got[t][k] == overBudgetResult {
 					aborted[t][k] = true
 					check(int32(t), "after aborted operation")
 				}
@@ -786,8 +798,13 @@ func execRun(spec *C11Run, rl *raceLog) (res runResult) {
 		docTainted := false
 		_ = docTainted
 		for k := range spec.Tasks[t].Ops {
-			if aborted[t][k] {
+			if aborted[t][k] || want[t][k] == overBudgetResult {
+				// no result: cut off by an injected abort, or by the yield budget
+				// in either execution (termination is C02's subject)
 				res.OpsAborted++
+				if want[t][k] == overBudgetResult || got[t][k] == overBudgetResult {
+					res.OpsOverBudget++
+				}
 				continue
 			}
 			res.OpsDone++
@@ -1045,6 +1062,7 @@ type c11Stats struct {
 	Snapshots      int            `json:"snapshots"`
 	OpsDone        int            `json:"ops_done"`
 	OpsAborted     int            `json:"ops_aborted"`
+	OpsOverBudget  int            `json:"ops_over_yield_budget"`
 	OpsCompared    int            `json:"ops_compared"`
 	OverBudget     int            `json:"runs_over_budget"`
 	ColdRuns       int            `json:"cold_runs"`
@@ -1155,6 +1173,7 @@ func c11Main(args []string) {
 		st.Snapshots += res.Snapshots
 		st.OpsDone += res.OpsDone
 		st.OpsAborted += res.OpsAborted
+		st.OpsOverBudget += res.OpsOverBudget
 		st.OpsCompared += res.OpsCmp
 		if res.OverBudget {
 			st.OverBudget++
